@@ -126,6 +126,9 @@ class Runner:
                 ev = ["R", t, remote, False, rule.get("ptype", "ACK"), 0, (p["mid"] + 1) % 65536, "-", None, 0]
             elif do == "wrongsrc":
                 ev = ["R", t, (remote + 1) % 4, False, rule.get("ptype", "ACK"), 0, p["mid"], "-", None, 0]
+            elif do == "piggy-badtoken":
+                ev = ["R", t, remote, False, "ACK", rule.get("code", 69), p["mid"], "7f7f",
+                      rule.get("obs"), rule.get("body", 0)]
             elif do == "piggy":
                 ev = ["R", t, remote, False, "ACK", rule.get("code", 69), p["mid"], tok,
                       rule.get("obs"), rule.get("body", 0)]
